@@ -11,6 +11,7 @@ _ENGINES = {
     "C12": ("sims.modsim", "ModSim"),
     "C13": ("sims.layersim", "LayerSim"),
     "C15": ("sims.initsim", "InitSim"),
+    "C17": ("sims.scalesim", "ScaleSim"),
     "C18": ("sims.datasim", "DataSim"),
     "C20": ("sims.trainsim", "TrainSim"),
 }
